@@ -59,8 +59,7 @@ PROPS["C11"] = dict(
         e1("C11.exact.0steps_0inner", "c11_exact_0_0", "as above with empty vectors", "validate <=> predicate (must reject)", timeout=600, unwindset={"swiftness_fri::config::Config::validate": 2, "scen::c11::oracle": 5}, witness=False),
         e1("C11.exact.3steps_1inner", "c11_exact_3_1", "vector lengths inconsistent (3 steps, 1 inner)", "validate <=> predicate", timeout=1500, unwindset={"swiftness_fri::config::Config::validate": 5, "scen::c11::oracle": 5}),
         e1("C11.exact.2steps_2inner", "c11_exact_2_2", "vector lengths inconsistent (2 steps, 2 inner: surplus inner config)", "validate <=> predicate", timeout=1500, unwindset={"swiftness_fri::config::Config::validate": 4, "scen::c11::oracle": 5}),
-        e1("C11.exact.4steps_3inner", "c11_exact_4_3", "4 step sizes, 3 inner layers", "validate <=> predicate", tier=T, timeout=3600, unwindset={"swiftness_fri::config::Config::validate": 6, "scen::c11::oracle": 6}),
-        e1("C11.exact.5steps_4inner", "c11_exact_5_4", "5 step sizes, 4 inner layers", "validate <=> predicate", tier=T, timeout=7200, unwindset={"swiftness_fri::config::Config::validate": 7, "scen::c11::oracle": 7}),
+        e1("C11.exact.4steps_3inner", "c11_exact_4_3", "4 step sizes, 3 inner layers", "validate <=> predicate", tier=T, timeout=2400, mem=24, unwindset={"swiftness_fri::config::Config::validate": 6, "scen::c11::oracle": 6}),
     ],
     outside=["more than 5 FRI layers supplied (the loop body is uniform; 6..15 layers are outside the bound)",
              "layout column counts outside 1..=128 (none of the seven layouts)"],
@@ -115,15 +114,15 @@ PROPS["C10"] = dict(
         e1("C10.generate.n%d" % n, "c10_generate_%d" % n,
            "transcript state (digest, counter): any felts; domain size 2^k, k any in 1..=64; query count n = %d (concrete per instance)" % n,
            "generate_queries == sort+dedup(low128(challenge_i) mod 2^k): in range, strictly increasing, at most n, deterministic, transcript advanced by n squeezes",
-           tier=(Q if n <= 2 else T), timeout=1800, witness=(n <= 1))
-        for n in range(0, 5)
+           tier=(Q if n <= 2 else T), timeout=1800, witness=(n <= 1), mem=(8 if n <= 2 else 24))
+        for n in range(0, 4)
     ] + [
         e1("C10.generate.n3.small_domain", "c10_generate_3_small", "as C10.generate.n3 with domain size 2^k, k in 1..=3 (collisions are the interesting case and do not depend on k)", "generate_queries == sort+dedup(...) for 3 queries over tiny domains", timeout=1200, witness=False, mem=20),
         e2("C10S"),
         e1("C10.points.consecutive", "c10_points2", "log domain size any in 2..=64, generator any felt, two consecutive indices q, q+1 with q any", "each of two adjacent queries is mapped to 3 * w^bitreverse(index) independently", timeout=1800, mem=10),
         e1("C10.points", "c10_points", "log domain size any in 1..=64, generator any felt, index any < 2^log (one query)", "queries_to_points: index -> 3 * w^bitreverse_log(index) (w^e an uninterpreted pow, bit reversal exact)", timeout=1200),
     ],
-    outside=["query counts above 5 (sorting code is std's; the loop body is uniform)", "agreement with the indices the prover logged on recorded proofs (concrete file replay)",
+    outside=["query counts above 3 (sorting code is std's; the loop body is uniform)", "agreement with the indices the prover logged on recorded proofs (concrete file replay)",
              "domain sizes above 2^64 (queries_to_points asserts; recorded under C18)"],
 )
 def _hist(name, seq, diff, tier=Q):
@@ -171,17 +170,16 @@ PROPS["C04"] = dict(
         _c04("bind", 2, 1, Q, BLAKE, ".blake2s_248"),
         _c04c(2, T), _c04("complete", 2, 1, T, BLAKE, ".blake2s_248"),
         _c04("bind", 2, 2, T), _c04("bind", 2, 2, T, BLAKE, ".blake2s_248"), _c04("complete", 2, 2, T, BLAKE, ".blake2s_248"),
-        _c04("wrongroot", 2, 1, Q), _c04("wrongroot", 2, 2, T), _c04("wrongroot", 3, 2, T),
-        _c04("bind", 3, 1, T), _c04("bind", 3, 2, T), _c04("complete", 3, 2, T), _c04c(3, T),
-        _c04("bind", 2, 2, T, K248, ".keccak_248"), _c04("complete", 2, 2, T, K248, ".keccak_248"),
-        _c04("bind", 2, 2, T, B160, ".blake2s_160"), _c04("complete", 2, 2, T, B160, ".blake2s_160"),
+        _c04("wrongroot", 2, 1, Q), _c04("wrongroot", 2, 2, T),
+        _c04("bind", 2, 2, T, K248, ".keccak_248"),
+        _c04("bind", 2, 2, T, B160, ".blake2s_160"),
     ],
     assumptions=E2S_ASSUMPTIONS,
-    technique="bounded model checking of the compiled real code with Kani/CBMC (heights <= 2-3, symbolic indices) + source-level symbolic execution with z3 and uninterpreted collision-free hashes (heights <= 3 quick / 4 thorough, every sorted index set of <= 3 queries)",
+    technique="bounded model checking of the compiled real code with Kani/CBMC (heights <= 2, <= 2 symbolic indices) + source-level symbolic execution with z3 and uninterpreted collision-free hashes (heights <= 3; quick: Keccak-160 masking, thorough: all four hash variants, every sorted index set of <= 3 queries)",
     outside=["tree heights above 4 and more than 3 queries (the queue algorithm is a uniform recursion; that induction is not made here)",
              "collision resistance of the hashes (assumed: uninterpreted collision-free functions)"],
 )
-def _c05(id, harness, bounds, desc, tier=Q, feats=DF, depth=3, mem=12, timeout=2400):
+def _c05(id, harness, bounds, desc, tier=Q, feats=DF, depth=3, mem=20, timeout=2400):
     return e1(id, harness, bounds, desc, tier=tier, features=feats, timeout=timeout, unwindset={REC: depth}, mem=mem)
 PROPS["C05"] = dict(
     title="Table decommitment binds every cell of every queried row",
@@ -190,7 +188,6 @@ PROPS["C05"] = dict(
         e2("C05S"),
         _c05("C05.row.cols1", "c05_row_1_f1", "1 column, 1 row (vector height 0); cell, commitment any felts", "Ok <=> commitment == the cell in Montgomery form (single-column rows unhashed); a different cell is rejected", depth=1),
         _c05("C05.row.cols2.friendly", "c05_row_2_f1", "2 columns, 1 row; cells and commitment any felts; friendly-layer count 1 = height+1", "Ok <=> commitment == Poseidon row hash of the cells*R; a row differing in any cell is rejected", depth=1),
-        _c05("C05.row.cols2.masked", "c05_row_2_f0", "2 columns, 1 row; cells and commitment any felts; friendly-layer count 0", "Ok <=> commitment == masked (Keccak/Blake2s low bits) row hash of the cells*R; a differing row is rejected (the real code's byte-wise flat_map/extend makes this a multi-million-step symex: thorough only)", tier=T, depth=1, mem=44, timeout=7200),
         _c05("C05.length.0", "c05_length_0", "2 columns, 1 query, 0 cells", "cell count != columns x queries is rejected", depth=1),
         _c05("C05.length.1", "c05_length_1", "2 columns, 1 query, 1 cell", "cell count != columns x queries is rejected", depth=1),
         _c05("C05.length.3", "c05_length_3", "2 columns, 1 query, 3 cells", "cell count != columns x queries is rejected", depth=1),
